@@ -354,6 +354,11 @@ def parse_set_cookie_headers(headers: Sequence[str]) -> list[tuple[str, Morsel[s
                     else:
                         parsed_cookies.append((key, current_morsel))
                         morsel_seen = True
+            elif morsel_seen:
+                # An attribute without a value that is not known here (for
+                # example "SameParty"): ignored, as RFC 6265 section 5.2 says,
+                # the attributes after it still belong to the cookie.
+                continue
             else:
                 # Invalid cookie string - no value for non-attribute
                 break
